@@ -205,9 +205,12 @@ theorem caAgg_applicable (env : CaSt → List Ev → Option Nat) : ProcessApplic
 /-- Non-vacuity witness for `Props/C06.lean`: a CA is created, gets a repository, a parent, two
 classes (class 0 certified, class 1 still pending) and a child with a certificate; then a complete
 key roll of class 0 – initiate, new certificate received, activate, finish – through three store
-objects, with a snapshot taken in the middle by the second one, a command the **listener vetoes**
-(index 9: revocation request naming the pending class, `revoke_for_pending_class_refused` of C04), a
-failed write, a cache drop and a refused command. -/
+objects, with a snapshot taken in the middle by the second one, a revocation request naming the
+pending class (index 9: until fix 239f0a59 the **listener vetoed** it -
+`pinned_revoke_for_pending_class_listener_error` of C04 -, now `process_command` refuses it: by
+`C04.listener_accepts` the listener of a reachable `CertAuth` vetoes nothing any more; the veto
+path of the store is exercised by `vetoAgg` and the task-queue `env` of the other instances), a
+failed write, a cache drop and another refused command. -/
 def caHistory : List (Op (caAgg noEnv)) :=
   [ .add 0 "admin" none false,
     .cmd 0 ⟨"u", .repoUpdate []⟩ false,
